@@ -201,7 +201,23 @@ func findEmissionsIn(fn *Func, body ast.Node, sel emitSel) []ast.Node {
 					}
 					if sel.args != nil {
 						for i, want := range sel.args {
-							if want != "" && (i >= len(call.Args) || !containsText(fn, exprStr(call.Args[i]), want)) {
+							if want == "" {
+								continue
+							}
+							if i >= len(call.Args) {
+								return true
+							}
+							if containsText(fn, exprStr(call.Args[i]), want) {
+								continue
+							}
+							// the argument is a parameter of a local closure: what its call sites pass
+							viaClosure := false
+							for _, txt := range closureParamArgs(fn, call.Args[i]) {
+								if containsText(rootFunc(fn), txt, want) {
+									viaClosure = true
+								}
+							}
+							if !viaClosure {
 								return true
 							}
 						}
@@ -1946,6 +1962,22 @@ func checkDisjunction(p *Prog, fn *Func, em ast.Node, want []string) string {
 			split(be.Y)
 			return
 		}
+		// a nil test in front of the alternatives (x != nil && (a || b)) is a defensive
+		// guard, not an alternative: the alternatives are those of the other conjunct
+		if be, ok := e.(*ast.BinaryExpr); ok && be.Op == token.LAND {
+			isNilTest := func(x ast.Expr) bool {
+				c, ok := ast.Unparen(x).(*ast.BinaryExpr)
+				return ok && c.Op == token.NEQ && (isNilIdent(fn.Info(), c.X) || isNilIdent(fn.Info(), c.Y))
+			}
+			if isNilTest(be.X) {
+				split(be.Y)
+				return
+			}
+			if isNilTest(be.Y) {
+				split(be.X)
+				return
+			}
+		}
 		// a named boolean: `ok := a || b; if ok {`
 		if id, isId := e.(*ast.Ident); isId {
 			if def := fn.SingleDef(fn.Info().ObjectOf(id)); def != nil {
@@ -2208,6 +2240,10 @@ func tokensMatch(fn *Func, ct, rt []string, m map[string]string) bool {
 			continue
 		}
 		if !isIdentTok(c) || !isIdentTok(r) {
+			return false
+		}
+		// a selector (the name behind a dot) is a field or method, never a renamed local
+		if i > 0 && strings.HasSuffix(strings.TrimRight(ct[i-1], " \t"), ".") {
 			return false
 		}
 		if !locals[c] {
@@ -2928,4 +2964,51 @@ func stringEmptinessAsCmp(info *types.Info, be *ast.BinaryExpr) ast.Expr {
 		return &ast.BinaryExpr{X: call.Args[0], Op: token.NEQ, Y: empty}
 	}
 	return nil
+}
+
+// closureParamArgs: e is a parameter of the local closure fn (bound once to a name, called
+// by that name): the texts of what its call sites pass for it.
+func closureParamArgs(fn *Func, e ast.Expr) []string {
+	if fn.Lit == nil || fn.Parent == nil {
+		return nil
+	}
+	id, ok := ast.Unparen(e).(*ast.Ident)
+	if !ok {
+		return nil
+	}
+	info := fn.Info()
+	o := info.ObjectOf(id)
+	k, idx := 0, -1
+	for _, fld := range fn.Lit.Type.Params.List {
+		for _, nm := range fld.Names {
+			if info.ObjectOf(nm) == o {
+				idx = k
+			}
+			k++
+		}
+	}
+	if idx < 0 {
+		return nil
+	}
+	as, ok := fn.Prog.parents[fn.Lit].(*ast.AssignStmt)
+	if !ok || len(as.Lhs) != 1 {
+		return nil
+	}
+	nid, ok := as.Lhs[0].(*ast.Ident)
+	if !ok {
+		return nil
+	}
+	no := info.ObjectOf(nid)
+	var out []string
+	ast.Inspect(rootFunc(fn).Body, func(z ast.Node) bool {
+		call, ok := z.(*ast.CallExpr)
+		if !ok || idx >= len(call.Args) {
+			return true
+		}
+		if u, ok := ast.Unparen(call.Fun).(*ast.Ident); ok && u != nid && info.ObjectOf(u) == no {
+			out = append(out, exprStr(call.Args[idx]))
+		}
+		return true
+	})
+	return out
 }
